@@ -11,4 +11,4 @@ trap 'rm -rf "$d"' EXIT
 cp -r /repo/. "$d"/ && rm -rf "$d/.git"
 ( cd "$d" && git init -q . 2>/dev/null && git apply $rev --whitespace=nowarn "$patch" ) || { echo "PATCH-DOES-NOT-APPLY $patch"; exit 4; }
 ( cd "$d" && go build ./... ) || { echo "VARIANT-DOES-NOT-BUILD $patch"; exit 5; }
-/verif/bin/fzfcheck -repo "$d" -prop "$prop" -tier "$tier" -known /verif/known_findings.json -evidence "$d/evidence.json"
+${FZFCHECK:-/verif/bin/fzfcheck} -repo "$d" -prop "$prop" -tier "$tier" -known /verif/known_findings.json -evidence "$d/evidence.json"
